@@ -60,7 +60,7 @@ SPEC = dict(
     exhaustive="all RootMonitor step sequences of the stated length over 3 priorities",
     trusted_base=[
         "the rules handed to ProcessEvent's sort/loop are produced by the rule index (C01); the model starts from the triggered, non-suppressed rules",
-        "sortutil.PriorityQueue is modelled as 'pop = least (priority, counter)'; its container/heap internals are tied by the correspondence (start order with one worker, hook trace with several), not proved",
+        "sortutil.PriorityQueue: the abstract queue ('pop = least (priority, counter)') is proved to be refined by the real container/heap representation in every reachable state (pq_reachable_heap_ordered, real_pop_is_min); that the Lean Heap.* functions transcribe container/heap is tied by the correspondence",
         "with several workers the dequeue order is observed at the hook points queue.push / queue.pop (hooks/C10.patch), called under TaskQueue.lock",
     ],
     assumptions=["HighestPriority = -1 means 'none' only for priorities >= 0 (the documented domain); the Option-valued theorem has no such restriction",
@@ -77,10 +77,12 @@ META = dict(
                 "fail-on-first-error exactly the prefix through the first failing rule runs and exactly that rule is reported, without it all run "
                 "and all failures are reported; every pop returns the least (priority, insertion number) and nothing left in a reachable queue "
                 "should have gone first; for every accepted sequence of NewChildMonitor/Activate/Skip/Finish calls the heap root equals the least "
-                "priority of the monitors activated by a triggering event and not finished (heapify and sift-up proved, not assumed). The two "
+                "priority of the monitors activated by a triggering event and not finished (heapify and sift-up proved, not assumed); heap.Push keeps "
+                "and heap.Pop uses the heap order, so the real PriorityQueue implements pop-is-least in every reachable state; in the cascade "
+                "model the events added by a rule are started whether or not the rule fails, each event once. The two "
                 "defects repaired by 5e0512e are kept as decide-checked negative theorems about the same algorithms."),
-    level_note=("Trusted: Lean kernel + propext/Classical.choice/Quot.sound; the correspondence harness; sortutil.PriorityQueue's heap is "
-                "represented by its specification (least element) and tied by tests only; scheduling across root monitors is unconstrained."),
+    level_note=("Trusted: Lean kernel + propext/Classical.choice/Quot.sound; the correspondence harness; the Lean transcription of container/heap "
+                "(up/down/Init/Push/Pop/Fix) is tied to the Go code by the correspondence; scheduling across root monitors is unconstrained."),
 )
 
 
